@@ -10,6 +10,7 @@ After import, the module globals `np` and `math` are rebound to proxies (array c
 """
 import ast, sys, os, builtins, hashlib, importlib.abc, importlib.machinery, importlib.util, math, operator, functools
 import numpy as np
+import z3
 from . import symnp as S
 from .explore import Unsupported
 
@@ -75,7 +76,7 @@ class T(ast.NodeTransformer):
 
 
 def has_sym(k):
-    if isinstance(k, (S.Sym, S.SymArray, S.NZ)):
+    if isinstance(k, (S.Sym, S.SymArray, S.NZ, S.Masked)):
         return True
     if isinstance(k, (tuple, list)):
         return any(has_sym(x) for x in k)
@@ -148,8 +149,16 @@ def _int(x=0, *a):
     if tn == 'SymFloat':
         return x.__int__()
     if isinstance(x, S.Sym):
-        if x.k in S.FSORT:
-            return S.cast(x, 'i8')
+        if x.k in ('x4', 'xi'):
+            r = S.cast(x, 'xi')
+            # an integer that the path condition forces to a single value is that value (needed where the code builds
+            # ranges / shapes from e.g. the global minimum of a per-pixel grid)
+            from .explore import EX
+            t = z3.simplify(r.t)
+            if z3.is_int_value(t):
+                return t.as_long()
+            v = EX.unique_value(t)
+            return r if v is None else v
         return S.cast(x, 'i8')
     return int(x, *a)
 
